@@ -25,11 +25,19 @@ def generate(rnd, tier, index=0):
             np_[1]["n_clusters"] = 2
         cfgs.append({"arms": list(arms), "lp": lp, "np": np_, "seed": rnd.randrange(2 ** 20),
                      "n_jobs": rnd.choice([1, 1, 2, 3, -1]), "backend": rnd.choice([None, None, "threading"])})
-    # neighbourhood bandits with different metrics together (shared distance cache)
+    # neighbourhood bandits with different metrics together (shared distance cache); in the float regime also metrics
+    # whose parameters scipy derives from the data handed to cdist (seuclidean, mahalanobis) and other supported ones
     if rnd.random() < 0.5:
-        for m, c in zip(rnd.sample(gen.METRICS_EXACT, min(len(cfgs), 4)), cfgs):
+        pool = list(gen.METRICS_EXACT)
+        if regime == "float":
+            pool += ["seuclidean", "cosine", "canberra", "braycurtis", "correlation", "minkowski"] + (["mahalanobis"] if d >= 2 else [])
+        for m, c in zip(rnd.sample(pool, min(len(cfgs), 4)), cfgs):
             if c["np"] and c["np"][0] in ("Radius", "KNearest"):
                 c["np"][1]["metric"] = m
+                if m in ("cosine", "correlation", "braycurtis", "canberra"):
+                    c["np"][1]["radius"] = rnd.choice([0.05, 0.2, 0.5, 1.0]) if c["np"][0] == "Radius" else None
+                    if c["np"][0] != "Radius":
+                        c["np"][1].pop("radius")
     any_ts = any(c["lp"][0] == "ThompsonSampling" for c in cfgs)
     any_ctx = any(is_contextual(c) for c in cfgs)
     n = rnd.randint(12, 48)
